@@ -187,13 +187,21 @@ let judge_async ltoks outs =
                        (let rec first i a b = match a, b with
                           | u :: a', v :: b' -> if u = v then first (i + 1) a' b' else Printf.sprintf "; first difference at frame %d: want %s got %s" i (pr_wire u) (pr_wire v)
                           | _ -> "" in first 0 (proj model x c) (proj real x c)))) [0; 1; 2]) [Cl; Sv];
+  let d () = match !bad with Some d -> d | None -> "" in
   if List.length mobs <> List.length labels then VDisagree "async script not accepted by the model"
+  (* the destination's Framer could not parse the octets it received, or frames never arrived *)
   else if odd <> [] then VPropfail ("concurrent_writes", "destination could not parse what the relay wrote: " ^ String.concat "_" odd)
-  else if not (b_faithful false labels o) then VPropfail ("stream_faithful", "async: " ^ (match !bad with Some d -> d | None -> ""))
-  else if not (b_direct labels o) && not err then VPropfail ("direct_identical", "async: " ^ (match !bad with Some d -> d | None -> ""))
+  (* extracted oracles, each proved equivalent to its statement (frames are not attributed to labels
+     here, so the statements about the whole run are used): delivered is a prefix of sent, direct
+     frames identical, nothing missing, credit exact *)
+  else if not (b_faithful false labels o) then VPropfail ("stream_faithful", "async: " ^ d ())
+  else if not (b_direct labels o) then VPropfail ("direct_identical", "async: " ^ d ())
+  else if not (b_complete labels o) then VPropfail ("concurrent_writes", "frames missing at the end of the run: " ^ d ())
+  else if not (b_credit_final labels o) then VPropfail ("exact_credit", "async: " ^ d ())
+  else if err then VPropfail ("concurrent_writes", "run did not complete")
   else match !bad with
-    | Some d -> VPropfail ("concurrent_writes", d ^ (if err then " (run did not complete)" else ""))
-    | None -> if err then VPropfail ("concurrent_writes", "run did not complete") else VOk true
+    | Some dd -> VDisagree ("async per-class sequences: " ^ dd)
+    | None -> VOk true
 
 let judge _name ins outs =
   match ins with
@@ -255,17 +263,19 @@ let judge _name ins outs =
           else if not (b_strand ls o) then Some "no_stranding"
           else None
         else
-          if List.exists (List.exists (fun (_, w) -> match w with
+          if not (b_faithful false ls o) && List.exists (List.exists (fun (_, w) -> match w with
                | WBlock (_, _, _, _, _, fid, _) -> int_of_n fid = 999 | _ -> false)) o
           then Some "header_decode"
           else if not (b_faithful false ls o) then Some "stream_faithful"
           else if not (b_direct ls o) then Some "direct_identical"
           else if not (b_table ls o) then Some "hpack_table_size"
           else if not (c08_prio_ok ls o) then Some "headers_priority_flag"
+          (* "however long the receiver's windows delay delivery": never beyond the windows (a strict
+             receiver resets the stream or the connection) and nothing deliverable held back *)
+          else if not (b_conn ls o && b_stream ls o && b_strand ls o) then Some "delivery_under_windows"
           else None in
       (* header fragments vs the receiver's max frame size in force (C09) *)
       let chunk_bad =
-        if prop <> "C09" then None else
         let bad = ref None in
         List.iteri (fun k s ->
           List.iter (fun (x, hp, ip, cs) ->
@@ -287,7 +297,8 @@ let judge _name ins outs =
                   | "no_stranding" -> b_strand lsi oi | "stream_faithful" -> b_faithful false lsi oi
                   | "direct_identical" -> b_direct lsi oi
                   | "hpack_table_size" -> b_table lsi oi
-                  | "header_decode" -> not (List.exists (List.exists (fun (_, w) -> match w with
+                  | "delivery_under_windows" -> b_conn lsi oi && b_stream lsi oi && b_strand lsi oi
+                  | "header_decode" -> b_faithful false lsi oi || not (List.exists (List.exists (fun (_, w) -> match w with
                         | WBlock (_, _, _, _, _, fid, _) -> int_of_n fid = 999 | _ -> false)) oi)
                   | _ -> c08_prio_ok lsi oi in
                 if not okc then begin k := i; raise Exit end
